@@ -17,7 +17,6 @@ import (
 	"fmt"
 	"runtime"
 	"strconv"
-	"strings"
 	"sync"
 	"sync/atomic"
 	"time"
@@ -113,8 +112,8 @@ type Op struct {
 type Ev struct {
 	A        string `json:"act"` // get | update | refused | vactxn | vacver
 	Txn      int    `json:"txn,omitempty"`
-	Obj      int    `json:"obj"` // update/refused: object supplied; get: object returned (-1 = never supplied)
-	Tag      int    `json:"tag"` // content tag of that object as read back
+	Obj      int    `json:"obj"` // update/refused: number of the object supplied; get: number read from the object returned (-1 = not one of ours)
+	Tag      int    `json:"tag"` // content class of that object
 	Now      int64  `json:"now_ns"`
 	Rel      string `json:"t"` // human-readable offset from the start
 	Retained []int  `json:"retained"`
@@ -131,21 +130,27 @@ type Case struct {
 	Reanchored int `json:"stat_reanchored"`
 }
 
-func mkData(tag int, enabled bool) *config.PoliciesData {
+// Every object the harness supplies carries its own number (and a content
+// class) in its content, so an object is recognised by what it contains: the
+// comparison does not depend on the accessor handing out the very pointer.
+func mkData(obj, tag int, enabled bool) *config.PoliciesData {
 	return &config.PoliciesData{Config: sharedConfig.PoliciesConfig{
-		Global: sharedConfig.Global{Remedies: []sharedConfig.Remedy{{Name: "tag-" + strconv.Itoa(tag), Enabled: enabled}}},
+		Global: sharedConfig.Global{Remedies: []sharedConfig.Remedy{
+			{Name: fmt.Sprintf("obj-%d-tag-%d", obj, tag), Enabled: enabled}}},
 	}}
 }
 
-func tagOf(p *config.PoliciesData) int {
+// objOf reads the number and content class back; (-1, -1) for an object the
+// harness never supplied (e.g. the empty PoliciesData).
+func objOf(p *config.PoliciesData) (int, int) {
 	if p == nil || len(p.Config.Global.Remedies) != 1 {
-		return -1
+		return -1, -1
 	}
-	n, err := strconv.Atoi(strings.TrimPrefix(p.Config.Global.Remedies[0].Name, "tag-"))
-	if err != nil {
-		return -1
+	var obj, tag int
+	if n, err := fmt.Sscanf(p.Config.Global.Remedies[0].Name, "obj-%d-tag-%d", &obj, &tag); n != 2 || err != nil {
+		return -1, -1
 	}
-	return n
+	return obj, tag
 }
 
 func rel(d int64) string {
@@ -203,11 +208,8 @@ func (h *hist) park(first bool) *sleeper {
 func (h *hist) retained() []int {
 	var r []int
 	for _, p := range h.acc.VerifC11Retained() {
-		if i, ok := h.id[p]; ok {
-			r = append(r, i)
-		} else {
-			r = append(r, -1)
-		}
+		obj, _ := objOf(p)
+		r = append(r, obj)
 	}
 	return r
 }
@@ -230,9 +232,8 @@ func (h *hist) pass(which int) {
 }
 
 func (h *hist) newObj(tag int, enabled bool) (*config.PoliciesData, int) {
-	p := mkData(tag, enabled)
+	p := mkData(len(h.objs), tag, enabled)
 	h.objs = append(h.objs, p)
-	h.id[p] = len(h.objs) - 1
 	return p, len(h.objs) - 1
 }
 
@@ -241,7 +242,7 @@ func exec(k *Case) {
 	if k.T0 == 0 {
 		k.T0 = t0
 	}
-	h := &hist{k: k, clk: newClock(k.T0), id: map[*config.PoliciesData]int{}, lastGot: map[int]int{}}
+	h := &hist{k: k, clk: newClock(k.T0), lastGot: map[int]int{}}
 	defer h.clk.kill()
 	contextmanager.Get().VerifC11SetClock(h.clk)
 	p0, _ := h.newObj(0, false)
@@ -254,17 +255,14 @@ func exec(k *Case) {
 			id := config.TxnID("txn-" + strconv.Itoa(op.Txn))
 			anchored := h.acc.VerifC11IsAnchored(id)
 			p := h.acc.GetTxnPoliciesData(id)
-			obj, ok := h.id[p]
-			if !ok {
-				obj = -1
-			}
+			obj, tag := objOf(p)
 			if prev, seen := h.lastGot[op.Txn]; seen && anchored && prev != obj {
 				k.Fallbacks++ // anchored, yet another object: the anchored version was gone
 			} else if seen && !anchored {
 				k.Reanchored++
 			}
 			h.lastGot[op.Txn] = obj
-			h.ev("get", op.Txn, obj, tagOf(p), false)
+			h.ev("get", op.Txn, obj, tag, false)
 			if !started[0] { // the first VacuumKey started the loop; it makes one pass and sleeps
 				started[0] = true
 				if h.sl[0] = h.park(true); h.sl[0] != nil {
